@@ -8,7 +8,7 @@ KINDS = ["t4", "t6", "un"]
 
 
 def gen_scenario(rng, flavour=None):
-    fl = flavour or rng.choice(["servers", "servers", "servers", "ipc", "ipcbig", "connect", "mixed", "cscript", "backlog", "prebind", "retry", "retry"])
+    fl = flavour or rng.choice(["servers", "servers", "servers", "ipc", "ipcbig", "connect", "mixed", "cscript", "backlog", "prebind", "retry", "retry", "ipchup", "ipchup"])
     L = []
     meta = {"drained": set(), "fl": fl}
     if fl in ("servers", "mixed"):
@@ -104,6 +104,16 @@ def gen_scenario(rng, flavour=None):
         L.append("run 3")
         if kind == "un":
             L.append("drain 0"); meta["drained"].add(0)
+    if fl == "ipchup":
+        # IPC pipe whose sending side goes away (close / shutdown / shutdown of both directions / never) before the
+        # receiver starts or after its k-th read, with handle-bearing and plain messages still unread; the receiver
+        # reads with buffers that are always filled (1) .. never filled (65536) and claims inside the read callback,
+        # every N-th read, only after end-of-stream, or pauses reading after every callback
+        k = rng.choice([2, 3, 5, 8, 9, 12, 17, 30])
+        kinds = "".join(rng.choice("tttppuu-") for _ in range(k))
+        when = rng.choice([0, 0, 0, 1, 2, max(1, k // 2), k, 99])
+        L.append(f"ipchup {kinds} {rng.choice(['imm', 'imm', 'imm', 'late', 'pause', '2', '3'])} {rng.choice([1, 2, 3, 64, 65536, 65536, 65536])} "
+                 f"{rng.choice([1, 1, 2, 3, 5])} {when} {rng.choice('cccsdn')}")
     if fl == "ipcbig":
         # uv_write2 carrying a handle AND a payload that needs several syscalls: short transfers scripted per
         # syscall on the sending descriptor (cap in bytes, -11 = EAGAIN, 0 = whatever the kernel takes), or a
@@ -256,6 +266,43 @@ def sim_monitor(prog, meta, out):
             return ("callback-write-shutdown-count", f"writes/shutdowns issued from a connect callback: {o}")
     if not any(o.startswith("loop-alive=0 close=0") for o in out):
         return ("loop-not-clean", f"requests/handles left after everything was closed: {out[-1] if out else ''}")
+    # --- IPC pipe whose sender hangs up: every handle whose uv_write2 completed arrives (in order, with the first byte of
+    #     its write, counted and typed) and is claimable - end-of-stream must not be reported while handles are still queued
+    hup = next((l for l in prog if l.startswith("ipchup")), None)
+    if hup:
+        _, kinds, pol, bufsz, paylen, when, how = hup.split(); paylen = int(paylen)
+        hk = [k for k in kinds if k != "-"]
+        first = [i * paylen for i, k in enumerate(kinds) if k != "-"]
+        total = len(kinds) * paylen
+        if any(kv(o)["r"] != "0" for o in out if o.startswith("hsend")): return ("ipc-send-refused", "uv_write2/uv_write on an IPC pipe failed")
+        received = gots = 0
+        for o in out:
+            w = o.split(); d = kv(o)
+            if w[0] == "hinflight" and (d["werr"] != "0" or int(d["wcbs"]) != len(kinds) or int(d["handles"]) != len(hk)):
+                return ("ipc-error", f"writes on the IPC pipe did not all complete with status 0 before the hang-up: {o}")
+            if w[0] == "hwcb": return ("ipc-error", o)
+            if w[0] == "hread" and "err" in d: return ("ipc-error", o)
+            if w[0] == "hread" and "n" in d:
+                received += int(d["new"]); b = int(d["bytes"])
+                exp = sum(1 for f in first if f < b)
+                if received != exp: return ("ipc-handles-per-write", f"after {b} payload bytes ({paylen} per write, kinds {kinds}) {received} handles had arrived, expected {exp}")
+                if int(d["pc"]) != received - gots: return ("ipc-pending-count", f"pending_count {d['pc']} after {received} received / {gots} claimed")
+                if d["type"] != (hk[gots] if received > gots else "-"): return ("ipc-pending-type", f"pending_type {d['type']} with {received - gots} unclaimed (sent kinds {''.join(hk)}, {gots} claimed)")
+            if w[0] == "heof":
+                if received < len(hk):
+                    return ("ipc-eof-before-handles", f"end-of-stream reported after {d['bytes']} of {total} payload bytes: {len(hk) - received} of {len(hk)} handles whose "
+                            f"uv_write2 completed with status 0 were still queued in the pipe and are lost (sender hang-up `{how}` at read {when}, receiver policy {pol}, buffer {bufsz})")
+                if int(d["pc"]) != received - gots: return ("ipc-pending-count", f"pending_count {d['pc']} at end-of-stream with {received} received / {gots} claimed")
+            if w[0] == "ipcgot":
+                if int(d["pc"]) != received - gots: return ("ipc-pending-count", f"pending_count {d['pc']} before claim {gots} with {received} received")
+                if d["r"] != "0" or d["usable"] != "1": return ("ipc-accept-failed", o)
+                if int(d["from"]) != gots: return ("ipc-order", f"claim {gots} yielded the handle sent as #{d['from']}")
+                if d["type"] != hk[gots]: return ("ipc-type", f"claim {gots}: type {d['type']}, sent {hk[gots]}")
+                gots += 1
+            if w[0] == "ipcempty" and (d["r"] != "-11" or d["pc"] != "0" or d["type"] != "-"): return ("ipc-empty", o)
+            if w[0] == "hupdone" and not (int(d["handles"]) == int(d["got"]) == len(hk)): return ("ipc-count", o)
+        if gots != len(hk) or not any(o.startswith("hupdone") for o in out): return ("ipc-lost", f"sent {len(hk)} handles, received {received}, claimed {gots}")
+        return wcheck_monitor(out)
     # --- IPC with payloads: one handle per sending write, arriving with the first byte of that write
     big = next((l for l in prog if l.startswith("ipcbig")), None)
     if big:
@@ -391,6 +438,32 @@ def model_diff(ctx, prog, out):
                     return f"ipc `{cmd}`: impl {d}  model before {prev} after {m}"
                 if tag == "empty" and (md["r"] != d["r"] or md["pc"] != d["pc"]):
                     return f"ipc empty accept: impl {d} model {m}"
+            prev = md
+    # IPC with a sender that hangs up: arrivals and claims replayed through the same fd-queue model
+    hup = next((l for l in prog if l.startswith("ipchup")), None)
+    if hup:
+        hk = [k for k in hup.split()[1] if k != "-"]
+        tr, k = [("init I 1", None), ("typed", None)], 0
+        for o in out:
+            w = o.split(); d = kv(o)
+            if w[0] == "hread" and "new" in d and int(d["new"]) > 0:
+                new = min(int(d["new"]), len(hk) - k)
+                if new > 0: tr.append(("recv - " + " ".join(f"{j}:{hk[j]}" for j in range(k, k + new)), ("after", d))); k += new
+            if w[0] == "ipcgot": tr.append((f"accept {'U' if d['type'] == 'u' else 'S'} 0", ("got", d)))
+            if w[0] == "ipcempty": tr.append(("accept S 0", ("empty", d)))
+        mi = iter(ctx.driver(["accept"], "\n".join(t[0] for t in tr) + "\n").splitlines())
+        prev = None
+        for cmd, exp in tr:
+            if cmd == "typed": continue
+            m = next(mi); md = kv(m)
+            if exp:
+                tag, d = exp
+                if tag == "after" and (md["pc"] != d["pc"] or md["ty"] != d["type"]):
+                    return f"ipc (hang-up) `{cmd}`: impl pc={d['pc']} type={d['type']}  model {m}"
+                if tag == "got" and (prev["pc"] != d["pc"] or prev["ty"] != d["type"] or md.get("got") != d["from"] or md["r"] != d["r"]):
+                    return f"ipc (hang-up) `{cmd}`: impl {d}  model before {prev} after {m}"
+                if tag == "empty" and (md["r"] != d["r"] or md["pc"] != d["pc"]):
+                    return f"ipc (hang-up) empty accept: impl {d} model {m}"
             prev = md
     # sending side: every syscall of uv__write on the IPC pipe (which request, which descriptor attached, how much asked)
     big = next((l for l in prog if l.startswith("ipcbig")), None)
@@ -553,10 +626,13 @@ def one(ctx, exe, prog, meta, diff=True):
     partial = sum(1 for o in out if o.startswith("tx ") and 0 <= int(kv(o)["ret"]) < int(kv(o)["asked"]))
     ctx.notes["sim_partial_sends_with_handle_requests"] = ctx.notes.get("sim_partial_sends_with_handle_requests", 0) + partial
     failed = any(o.startswith("final") and kv(o)["status"] != "0" for o in out)
+    hung = any(o.startswith("hangup") for o in out) and any(o.startswith("hread") and "n" in kv(o) for o in out[next((i for i, o in enumerate(out) if o.startswith("hangup")), 0):])
+    if hung:
+        ctx.notes["sim_ipc_hangup_with_unread_messages_cases"] = ctx.notes.get("sim_ipc_hangup_with_unread_messages_cases", 0) + 1
     for o in out:
         if o.startswith("sys connect"):
             k = "sim_connect_results"; ctx.notes.setdefault(k, {}); r = kv(o)["ret"]; ctx.notes[k][r] = ctx.notes[k].get(r, 0) + 1
-    if deferred or bigq or failed or partial:
+    if deferred or bigq or failed or partial or hung:
         ctx.nontrivial("S" + hashlib.sha1("\n".join(out).encode()).hexdigest()[:12])
     for k, v in (("sim_deferred_accept_cases", deferred), ("sim_ipc_queue_gt8_cases", bigq), ("sim_failed_connect_cases", failed),
                  ("sim_accept4_faults_fired", sum(1 for o in out if o.startswith("accept4 injected")))):
@@ -580,7 +656,15 @@ FIXED = [
     (["server 0 un imm", "server 1 t4 imm", "cscript -4 -4 1", "uvc 0 1", "cscript -13", "uvc 1 1", "cscript -13", "uvc 2 0", "cscript -111", "uvc 3 1",
       "cscript -11", "uvc 4 1", "cscript -11", "uvc 5 0", "cscript -2", "uvc 6 0", "cscript -99", "uvc 7 0", "cscript -4 1", "uvc 8 0", "run 3", "end"], set()),
     (["ipcbig tp 300000", "end"], set()),
+    (["ipchup tpu-tpu-tpu late 64 2 3 s", "end"], set()),
+    (["ipchup tptptptptptp pause 3 2 2 d", "end"], set()),
+    (["ipchup -tt-pppppppppu 3 1 1 1 c", "end"], set()),
     (["badconnect 100 tcp", "badconnect 101 pipe", "badconnect 102 long", "badconnect 103 longnt", "badconnect 104 tcp close", "badconnect 105 pipe close", "run 3", "wcheck", "end"], set()),
+] + [
+    # sender hang-up grid: claim policy x kind of hang-up that raises POLLHUP x before the first read / inside the first callback,
+    # every read short (large buffer), 5 handle-bearing messages and a plain one unread
+    ([f"ipchup tp-utt {pol} 65536 {pay} {when} {how}", "end"], set())
+    for pol in ("imm", "late", "pause", "2") for how in ("c", "d") for when, pay in ((0, 1), (1, 2))
 ]
 
 
